@@ -1207,6 +1207,19 @@ class LibMixin:
                 return None
             if n == 'copy':
                 return dict(o)
+            if n == 'setdefault' and args and isinstance(args[0], (str, int)) and not isinstance(args[0], bool):
+                if args[0] in o:
+                    return o[args[0]]
+                self.check_write(o)
+                o[args[0]] = args[1] if len(args) > 1 else None
+                return o[args[0]]
+            if n == 'pop' and args and isinstance(args[0], (str, int)) and not isinstance(args[0], bool):
+                if args[0] in o:
+                    self.check_write(o)
+                    return o.pop(args[0])
+                if len(args) > 1:
+                    return args[1]
+                py_raise('KeyError', repr(args[0]))
         if isinstance(o, str):
             if n == 'format':
                 return '<str>'
